@@ -474,11 +474,17 @@ def rule_10(ctx):
         raise ExcRaised(Ref('builtin:ValueError'))
     models = {'ext:dateutil.parser.parse': nodate}
     vals = [('3', V.num(3), 3), ('2.5', V.num(2.5), 2.5), ('"3"', V.text('3'), 3), ('"x"', V.text('x'), None), ('""', V.text(''), None),
-            ('TRUE', V.boolean(True), 1), ('blank', V.blank(), 0), ('0', V.num(0), 0)]
+            ('TRUE', V.boolean(True), 1), ('blank', V.blank(), 0), ('0', V.num(0), 0), ('FALSE', V.boolean(False), 0), ('-2', V.num(-2), -2),
+            ('"false"', V.text('false'), None), ('"0"', V.text('0'), 0), ('"-1"', V.text('-1'), -1), ('4', V.num(4), 4)]
+    models.update(V.numpy_models())
     n = 0
-    for name, fn in (('OP_ADD', op_.add), ('OP_SUB', op_.sub), ('OP_MUL', op_.mul), ('OP_DIV', op_.truediv)):
+
+    def pw(a, b):
+        return float(a) ** b if b < 0 else a ** b
+    for name, fn in (('OP_ADD', op_.add), ('OP_SUB', op_.sub), ('OP_MUL', op_.mul), ('OP_DIV', op_.truediv), ('POWER', pw)):
         f = V.registered(ctx, name)
         wrong = []
+        wrong_bt = []
         for la, a, na in vals:
             for lb, b, nb in vals:
                 out = V.call(ctx, name, [a, b], models=models)
@@ -490,17 +496,25 @@ def rule_10(ctx):
                     else:
                         want = '#VALUE!'
                         ok = got in (('error-class', 'ValueExcelError'), ('error', '#VALUE!'))
+                        if name == 'POWER' and not ok and (na == 0 or nb == 0 or na is None and nb is None):
+                            ok = isinstance(got, tuple) and got[0] in ('error', 'error-class')
                 elif name == 'OP_DIV' and nb == 0:
                     want = '#DIV/0!'
                     ok = got in (('error-class', 'DivZeroExcelError'), ('error', '#DIV/0!'))
+                elif name == 'POWER' and na == 0 and nb <= 0:
+                    continue        # 0^0 and 0^-n: Excel's #NUM! / #DIV/0! - decided by C07.3 / C16
+                elif name == 'POWER' and na < 0 and not float(nb).is_integer():
+                    continue        # negative base, fractional exponent: #NUM! - decided by C07.3 / C16
                 else:
                     want = fn(na, nb)
                     ok = isinstance(got, tuple) and got[0] == 'Number' and isinstance(got[1], (int, float)) and abs(got[1] - want) < 1e-12
                 n += 1
                 if not ok:
-                    wrong.append(f'{la} {name[3:]} {lb} = {got!r} (expected {want!r})')
+                    (wrong_bt if '"false"' in (la, lb) else wrong).append(f'{la} {name[3:]} {lb} = {got!r} (expected {want!r})')
         ctx.expect(not wrong, f.node, f'{name} on every pair of scalar operand kinds',
                    f'{name}: ' + '; '.join(wrong[:4]))
+        ctx.expect(not wrong_bt, f.node, f'{name}: a text that spells a boolean is not a number',
+                   f'{name}: ' + '; '.join(wrong_bt[:4]) + ' - "false" / "true" are texts that are not numeric: arithmetic on them is #VALUE!')
     cat = V.registered(ctx, 'CONCAT')
     wrong = []
     for la, a, _ in vals:
@@ -513,7 +527,7 @@ def rule_10(ctx):
             if got != want:
                 wrong.append(f'{la} & {lb} = {got!r} (expected {want!r})')
     ctx.expect(not wrong, cat.node, '& joins the text forms of both operands', '&: ' + '; '.join(wrong[:4]))
-    ctx.floor(5, 'operator tables')
+    ctx.floor(11, 'operator tables')
     ctx.note(f'{n} operand pairs evaluated')
 
 
